@@ -403,7 +403,7 @@ pub fn worker_main(prop: &PropDef, tier: Tier, shard: usize, nshards: usize, dir
         }
     }
     // watchdog: a single execution that takes longer than the limit is a verdict (timeout)
-    let limit_ms: u64 = std::env::var("YV_EXEC_LIMIT_MS").ok().and_then(|s| s.parse().ok()).unwrap_or(30_000);
+    let limit_ms: u64 = std::env::var("YV_EXEC_LIMIT_MS").ok().and_then(|s| s.parse().ok()).unwrap_or(if prop.id == "C10" { 8_000 } else { 30_000 });
     std::thread::spawn(move || loop {
         std::thread::sleep(Duration::from_millis(250));
         let s = EXEC_START_MS.load(std::sync::atomic::Ordering::Relaxed);
